@@ -16,7 +16,7 @@ import (
 // With a fallback, the fallback is what gets resolved, also for a cyclic variable.
 func c08VarInvalid(c *core.Check) {
 	p := c.Prog
-	r := c.Rule("R16", "unusable var() references: (a) resolveVar has a boolean result that is true on every return reached when the variable is undefined or in the set of resolutions in progress and there is no fallback (no comma), and false on every return reached when there is a comma with nothing after it: var(--a,) is replaced with nothing; (b) in those cases with a fallback, the recursive resolution of the fallback is reached; (c) in cascadeValue, when that result is true neither Validate nor ExpandValidatePending is reached: the declaration is handled as invalid", 7)
+	r := c.Rule("R16", "unusable var() references: (a) resolveVar has a boolean result that is true on every return reached when the variable is undefined or in the set of resolutions in progress and there is no fallback (no comma), and false on every return reached when there is a comma with nothing after it: var(--a,) is replaced with nothing; (b) in those cases with a fallback, the recursive resolution of the fallback is reached; (c) in cascadeValue, when that result is true neither Validate nor ExpandValidatePending is reached: the declaration is handled as invalid (the scenarios of (a) and (b) are replayed along forward edges; they are named and not decided when the function carries a flag around a loop and tests it after the loop)", 1)
 	rv := p.Fn("html/tree", "resolveVar")
 	cv := p.Lookup("html/tree.(*ComputedStyle).cascadeValue")
 	if rv == nil || cv == nil {
@@ -116,7 +116,15 @@ func c08VarInvalid(c *core.Check) {
 	if len(commaAtoms) > 0 {
 		scens = append(scens, scen{"undefined variable, empty fallback", false, true, true}, scen{"cyclic variable, empty fallback", true, true, true})
 	}
+	// The replay follows forward edges only: what a loop computes must leave it forwards (break, return).  A loop
+	// that carries its result in a flag tested after the loop (`for …; !found; … { if … { found = true } }`) is not
+	// modelled — at the exit the flag would have its entry value — and its scenarios are named, not decided.
+	carried := loopCarriedFlagTestedOutside(rv)
 	for _, s := range scens {
+		if carried != "" {
+			r.Skip("html/tree.resolveVar | "+s.name, p.Pos(rv.Pos()), "not decided: "+carried)
+			continue
+		}
 		assign := map[ssa.Value]bool{}
 		for k, v := range base {
 			assign[k] = v
@@ -439,4 +447,60 @@ func c08VarTrailingComma(c *core.Check) {
 		})
 	}
 	r.Cond(bad == 0 && n > 0, key, p.Pos(fn.Pos()), fmt.Sprintf("the %d returns reached after the loop give the name", n), "a return after the loop gives the empty name although the function is var: var(--a,) is refused")
+}
+
+// loopCarriedFlagTestedOutside: some boolean tested outside of a loop is (a merge of) a value carried around that
+// loop: a header phi with a non-constant value on a back edge.  Returns a description, or "" when there is none.
+func loopCarriedFlagTestedOutside(fn *ssa.Function) string {
+	loops := core.Loops(fn)
+	headerOf := map[*ssa.BasicBlock]*core.Loop{}
+	for _, l := range loops {
+		headerOf[l.Header] = l
+	}
+	for _, b := range fn.Blocks {
+		if len(b.Instrs) == 0 {
+			continue
+		}
+		ifi, ok := b.Instrs[len(b.Instrs)-1].(*ssa.If)
+		if !ok {
+			continue
+		}
+		seen := map[ssa.Value]bool{}
+		var walk func(v ssa.Value) string
+		walk = func(v ssa.Value) string {
+			if seen[v] {
+				return ""
+			}
+			seen[v] = true
+			if u, ok := v.(*ssa.UnOp); ok && u.Op == token.NOT {
+				return walk(u.X)
+			}
+			phi, ok := v.(*ssa.Phi)
+			if !ok {
+				return ""
+			}
+			if bt, ok := phi.Type().Underlying().(*types.Basic); !ok || bt.Kind() != types.Bool {
+				return ""
+			}
+			if l := headerOf[phi.Block()]; l != nil && !l.Blocks[b] {
+				for i, pred := range phi.Block().Preds {
+					if l.Blocks[pred] {
+						if _, isK := phi.Edges[i].(*ssa.Const); !isK {
+							return "a boolean carried around a loop is tested after the loop (block " + fmt.Sprint(b.Index) + "): the replay follows forward edges only"
+						}
+					}
+				}
+			}
+			for _, e := range phi.Edges {
+				if w := walk(e); w != "" {
+					return w
+				}
+			}
+			return ""
+		}
+		if w := walk(ifi.Cond); w != "" {
+			return w
+		}
+	}
+	return ""
 }
